@@ -249,8 +249,8 @@ func guardWalkStmts2(body *ast.BlockStmt, noret noReturnFunc, visit func(s ast.S
 // raiseExceptions: explicit raising constructs that run outside any recover, one reason each.
 var raiseExceptions = map[string]string{
 	"data.NewWith single-value type assertion v.Interface().(time.Time)": "dominated by the test v.Type() == timeType on the preceding line, so the assertion cannot fail",
-	"data.NewWith panic#1":       "\"map keys must be strings\": the property's quantifier ranges over JSON-like values, whose maps are string-keyed",
-	"data.NewWith panic#2":       "\"unexpected data type\": reached only for channels, functions, complex numbers and the like, which are not JSON-like values",
+	"data.NewWith panic#1":          "\"map keys must be strings\": the property's quantifier ranges over JSON-like values, whose maps are string-keyed",
+	"data.NewWith panic#2":          "\"unexpected data type\": reached only for channels, functions, complex numbers and the like, which are not JSON-like values",
 	"soyhtml.scope.alldata panic#1": "\"impossible\": every scope built by Execute/evalCall has an entered frame (R02c checks that each state is given an enter()ed scope); alldata is only called on such a scope",
 }
 
